@@ -2,6 +2,7 @@ package main
 
 import (
 	"fmt"
+	"sort"
 	"strings"
 
 	"golang.org/x/tools/go/ssa"
@@ -9,6 +10,10 @@ import (
 
 // dumpFunc prints the normal forms of the stores, calls and returns of a function (debug aid).
 func dumpFunc(w *World, spec string) {
+	if spec == "detector" {
+		dumpDetector(w)
+		return
+	}
 	i := strings.Index(spec, ":")
 	fn := w.Func(spec[:i], spec[i+1:])
 	if fn == nil {
@@ -42,6 +47,36 @@ func dumpFunc(w *World, spec string) {
 			case *ssa.If:
 				fmt.Printf("   if %s\n", e.termOf(x.Cond))
 			}
+		}
+	}
+}
+
+func dumpDetector(w *World) {
+	d := getDetector(w)
+	fmt.Println("err:", d.Err)
+	var rs []string
+	for r, fi := range d.Role {
+		rs = append(rs, fmt.Sprintf("%s -> %s", r, d.St.Field(fi).Name()))
+	}
+	sort.Strings(rs)
+	for _, r := range rs {
+		fmt.Println("  role", r)
+	}
+	e := newTermEnv(w)
+	for _, fn := range d.Funcs {
+		fmt.Println("func", fn.Name())
+		for _, a := range pixAccessesOf(fn) {
+			kind := "load "
+			if a.IsStore {
+				kind = "store"
+			}
+			row := d.rangeOf(e, a.Row)
+			cs := "-"
+			if a.Col != nil {
+				c := d.rangeOf(e, a.Col)
+				cs = fmt.Sprintf("[%s, %s] %v %s", c.lo, c.hi, c.ok, c.why)
+			}
+			fmt.Printf("   %s %s frame=%s row=[%s, %s] %v %s col=%s\n", w.InstrPos(a.Instr), kind, e.termOf(a.Frame), row.lo, row.hi, row.ok, row.why, cs)
 		}
 	}
 }
